@@ -41,6 +41,8 @@ def mk(spec):
         return TOKENS[spec[1]]
     if k == 'bigfloat':                    # floats that differ by one unit at a large magnitude (epoch seconds), or by 1e-13 near 0
         return 1.7e9 + spec[1] if spec[2] == 'big' else 1e-13 * spec[1]
+    if k == 'long':                        # 40-column records that differ in one column only, by values with equal hashes
+        return tuple([0] * 20 + [-1 if spec[1] == 0 else -2] + ['x'] * 19)
     if k == 'np':                          # numpy scalars: == / != on them return numpy.bool_, not the bool singletons
         import numpy
         return numpy.int64(spec[1]) if spec[2] == 'i' else numpy.float64(spec[1])
@@ -61,6 +63,7 @@ SPEC = st.one_of(
     st.tuples(st.just('token'), st.integers(0, 2)),
     st.tuples(st.just('nested'), st.integers(0, 1)),
     st.tuples(st.just('np'), st.integers(0, 2), st.sampled_from(['i', 'f'])),
+    st.tuples(st.just('long'), st.integers(0, 1)),
     st.tuples(st.just('bigfloat'), st.integers(0, 2), st.sampled_from(['big', 'tiny'])),
 ).map(list)
 
@@ -68,11 +71,11 @@ def compatible(pool):
     """numpy scalars compare element-wise with tuples (np.int64(1) == (0, 1) is an array without a truth value): a pool that
     holds numpy scalars holds no tuples"""
     if any(s[0] == 'np' for s in pool):
-        pool = [s for s in pool if s[0] not in ('tuple', 'nested')]
+        pool = [s for s in pool if s[0] not in ('tuple', 'nested', 'long')]
     return pool
 
 
-FRESH = ('big', 'tuple', 'str', 'nested')
+FRESH = ('big', 'tuple', 'str', 'nested', 'long')
 
 
 def fresh_kind(spec):
